@@ -394,11 +394,27 @@ def _det_sym(A):
 
 def _inv(A):
     A = _np.asarray(A)
-    if A.dtype != object or not _has_sym(A):
-        return _np.linalg.inv(A.astype(float)).astype(object) if A.dtype == object else _np.linalg.inv(A)
+    if A.dtype != object:
+        return _np.linalg.inv(A)
     n = A.shape[0]
-    d = _det_sym(A)
+    if not _has_sym(A):
+        if n > 4:
+            # large concrete matrices (element compliance of mixed rods): exact when diagonal, else numpy
+            off = [(i, j) for i in range(n) for j in range(n) if i != j and A[i, j] != 0]
+            if off:
+                return _np.linalg.inv(A.astype(float)).astype(object)
+        # small concrete matrices are inverted exactly (a float inverse is only accurate to rounding, which the
+        # exact-real encoding would see as A^-1 A != I)
+        A = _np.array([[S(Q(core.const(x))) for x in row] for row in A], dtype=object)
     out = _np.empty((n, n), dtype=object)
+    offd = [(i, j) for i in range(n) for j in range(n) if i != j and not (not isinstance(A[i, j], S) and A[i, j] == 0)
+            and not (isinstance(A[i, j], S) and core.q_is_const(A[i, j].v) and A[i, j].v.n == 0)]
+    if not offd:
+        out.fill(0.0)
+        for i in range(n):
+            out[i, i] = 1 / A[i, i]
+        return out
+    d = _det_sym(A)
     if n == 1:
         out[0, 0] = 1 / A[0, 0]
         return out
